@@ -217,6 +217,23 @@ pub fn text(c: &Case) -> String {
         }
         if c.size == "inter" {
             s += &format!("({} ^ {size})", from(&c.cons[0], first_override));
+        } else if c.size == "inter-rev" {
+            s += &format!("({size} ^ {})", from(&c.cons[0], first_override));
+        } else if c.size == "split" {
+            // the same expression with one FROM per operand: (FROM (a) | FROM (b))
+            let e = &c.cons[0];
+            let mut t = String::new();
+            for (i, o) in e.operands.iter().enumerate() {
+                if i > 0 {
+                    t += match e.ops[i - 1] {
+                        'U' => " | ",
+                        'I' => " ^ ",
+                        _ => " EXCEPT ",
+                    };
+                }
+                t += &format!("FROM ({})", opnd_text(&ops[*o]));
+            }
+            s += &format!("({t})");
         } else {
             s += &format!("({})", from(&c.cons[0], first_override));
         }
@@ -406,7 +423,7 @@ impl Prop for C15 {
         }
         let mut out = vec![];
         for ty in km {
-            let heavy = ty == "BMP" || ty == "Universal"; // the compiler searches a 65 k-entry table per character: ~50 ms per case
+            let heavy = false; // (BMP / Universal were ~50 ms per case until the lookup-error formatting was repaired upstream)
             for e in e1.iter().chain(e2.iter()) {
                 if heavy && !tier.thorough() && e.ops.first().map_or(false, |o| *o != 'U') {
                     continue;
@@ -417,9 +434,21 @@ impl Prop for C15 {
                     }
                 }
             }
+            // SIZE and FROM combined by a set operator (either order), and one FROM per operand
+            for e in e1.iter().chain(e2.iter()) {
+                if heavy && !tier.thorough() && !e.ops.is_empty() {
+                    continue;
+                }
+                for ctx in ["assign", "component"] {
+                    out.push(Case { ty: ty.into(), cons: vec![e.clone()], size: "inter".into(), ctx: ctx.into() });
+                    out.push(Case { ty: ty.into(), cons: vec![e.clone()], size: "inter-rev".into(), ctx: ctx.into() });
+                    if !e.ops.is_empty() {
+                        out.push(Case { ty: ty.into(), cons: vec![e.clone()], size: "split".into(), ctx: ctx.into() });
+                    }
+                }
+            }
             // one witness row each for the constructions that are known not to work at all (see known_findings.txt)
             for e in e1.iter() {
-                out.push(Case { ty: ty.into(), cons: vec![e.clone()], size: "inter".into(), ctx: "assign".into() });
                 out.push(Case { ty: ty.into(), cons: vec![e.clone()], size: "none".into(), ctx: "include".into() });
             }
             // serial / parent: 1-operand × 1-operand
